@@ -63,7 +63,9 @@ def main():
         for c in seq['calls']:
             try:
                 r = tifa_analysis(seq['codes'][c])
-                obs.append([ids.setdefault(id(r), len(ids)), len(MAIN_REPORT.feedback) + len(MAIN_REPORT.ignored_feedback)])
+                lines = [x[2] for x in issues_of(r) if x[2] is not None]
+                obs.append([ids.setdefault(id(r), len(ids)), len(MAIN_REPORT.feedback) + len(MAIN_REPORT.ignored_feedback),
+                            max(lines) if lines else 0])
             except BaseException as e:
                 err = type(e).__name__ + ': ' + str(e)[:100]
                 break
